@@ -31,7 +31,10 @@ func VerifC07() {
 	v.Assert(bytes.Equal(id1.Hash, tid1.Hash), "twin-agrees-on-block-1")
 	ref1 := ref.clone()
 
-	b2 := mwBlock(1 + v.Tier())
+	b2 := mwBlock(1)
+	if v.Tier() > 0 { // thorough: two writes in the interrupted block, keys from a concrete set
+		b2 = mwBlockFrom(2, [][]byte{{0x10}, {0x20}})
+	}
 	mwApply(twin, b2)
 	ref.apply(b2)
 	before := *count.Ops
